@@ -10,6 +10,7 @@ import traceback
 from . import build, core
 
 VERIF = build.VERIF
+OUT = os.environ.get('VERIF_OUT') or VERIF   # mutant runs write elsewhere
 MODULES = {
     'C01': 'pbt.c01_roundtrip', 'C02': 'pbt.c02_links', 'C03': 'pbt.c03_loadlinks',
     'C04': 'pbt.c04_interpret', 'C05': 'pbt.c05_prebuild_text', 'C06': 'pbt.c06_prebuild_wf',
@@ -30,7 +31,7 @@ def load_findings(prop):
 
 
 def write_replay(prop, v, seed, tier):
-    d = os.path.join(VERIF, 'replays')
+    d = os.path.join(OUT, 'replays')
     os.makedirs(d, exist_ok=True)
     body = {'property': prop, 'bucket': v['bucket'], 'case': v['case'],
             'detail': v['detail'], 'seed': seed, 'tier': tier}
@@ -52,7 +53,7 @@ def run_replay_case(mod, case):
 
 
 def write_evidence(prop, mod, ctx, res, wall, nviol, extra=None):
-    d = os.path.join(VERIF, 'evidence')
+    d = os.path.join(OUT, 'evidence')
     os.makedirs(d, exist_ok=True)
     cov = {
         'evaluations': res.evaluations,
